@@ -25,7 +25,7 @@ PROP = "X05"
 
 def cfg(meshes):
     return (
-        "INIT ApiInit\nNEXT ApiNext\nCONSTANTS\n MeshSel = {1}\n RouteSel = {\"ugrid\"}\n Mech = \"copies\"\n ApiMeshes = {%s}\n"
+        "INIT ApiInit\nNEXT ApiNext\nCONSTANTS\n MeshSel = {1}\n RouteSel = {\"ugrid\"}\n Mech = \"copies\"\n ThinMeshes = {}\n ApiMeshes = {%s}\n"
         "INVARIANT PlanOK\nINVARIANT EmitApi\nCHECK_DEADLOCK FALSE\n" % ",".join(map(str, meshes))
     )
 
